@@ -91,6 +91,13 @@ def oracle(sp: dict, t: dict) -> list[str]:
     task_ids = [info[next(iter(ts))] for fn, ts in by_owner.items() if fn.startswith('task_body') and next(iter(ts)) in info]
     if len(set(task_ids)) != len(task_ids):
         msgs.append(f'different tasks share (thread number, task number): {task_ids}')
+    # a reported piece of output is the text of one thread/task: never the markers of two of them
+    for e in evs:
+        if e['_type'] == 'OnWriteStdout':
+            who = set(re.findall(r'(?:^| )([TA]\d+) ', e['text']))
+            if len(who) > 1:
+                msgs.append(f"the output {e['text']!r} reported for trace {e['trace_no']} mixes text written by {sorted(who)}")
+                break
     # stdout attribution: the line "T3 …" / "A1 …" is printed by thread_body_3 / task_body_1
     for e in evs:
         if e['_type'] == 'OnWriteStdout':
